@@ -61,13 +61,19 @@ class OKPKey(AsymmetricKey):
         elif isinstance(key, (X448PublicKey, X448PrivateKey)):
             return "X448"
 
+    def _check_crv(self):
+        crv = self._dict_data["crv"]
+        if not isinstance(crv, str) or crv not in PUBLIC_KEYS_MAP:
+            raise ValueError(f'Invalid crv value: "{crv}"')
+        return crv
+
     def load_private_key(self):
-        crv_key = PRIVATE_KEYS_MAP[self._dict_data["crv"]]
+        crv_key = PRIVATE_KEYS_MAP[self._check_crv()]
         d_bytes = urlsafe_b64decode(to_bytes(self._dict_data["d"]))
         return crv_key.from_private_bytes(d_bytes)
 
     def load_public_key(self):
-        crv_key = PUBLIC_KEYS_MAP[self._dict_data["crv"]]
+        crv_key = PUBLIC_KEYS_MAP[self._check_crv()]
         x_bytes = urlsafe_b64decode(to_bytes(self._dict_data["x"]))
         return crv_key.from_public_bytes(x_bytes)
 
